@@ -190,7 +190,8 @@ class UniformSample(Case):
         with patched((rb_mod, "torch", ShimTorch({"randperm": randperm}))):
             batch = buf.sample(B, return_idx=True)
         obs = []
-        obs.append(Ob("permutation-over-live-rows-only", eq(drawn["n"], size)))
+        if "n" in drawn:       # (an implementation need not draw a permutation; what it hands out is judged below)
+            obs.append(Ob("permutation-over-live-rows-only", eq(drawn["n"], size)))
         idxs = [val(batch["idxs"], k) for k in range(B)]
         got = [row_vals(batch, k) for k in range(B)]
         for k in range(B):
@@ -221,9 +222,9 @@ class MultiAgent(Case):
     assumptions = ("done flags are 0/1",)
     site = "MultiAgentReplayBuffer"
 
-    def __init__(self, N, pre, w, A=2, B=2, vect=True):
-        self.N, self.pre, self.w, self.A, self.B, self.vect = N, pre, w, A, B, vect
-        self.name = f"marb-N{N}-pre{pre}-w{w}-A{A}-B{B}" + ("" if vect else "-single")
+    def __init__(self, N, pre, w, A=2, B=2, vect=True, mixed=False):
+        self.N, self.pre, self.w, self.A, self.B, self.vect, self.mixed = N, pre, w, A, B, vect, mixed
+        self.name = f"marb-N{N}-pre{pre}-w{w}-A{A}-B{B}" + ("" if vect else "-single") + ("-mixed-key-order" if mixed else "")
         self.bounds = {"capacity": N, "single_saves_before": pre, "vectorised_width": w, "agents": A, "batch": B,
                        "symbolic": "payload of every (transition, field, agent); sampled positions"}
 
@@ -239,7 +240,9 @@ class MultiAgent(Case):
             out = {}
             for f in fields:
                 out[f] = {}
-                for a in ids:
+                # the dicts of different fields need not list the agents in the same order (observations come from the
+                # environment, actions from the algorithm)
+                for a in (list(reversed(ids)) if self.mixed and f in ("action", "reward", "done") else ids):
                     kind = "flag" if f == "done" else "real"
                     width = 2 if f in ("state", "next_state") else None
                     if vec_w is None:
@@ -306,8 +309,9 @@ def cases(tier):
           RingStep(3, 2, "dict"), RingStep(4, 3, "tuple"),
           RingBase(3, 2, 2), RingBase(4, 1, 4), RingBase(2, 2, 1),
           UniformSample(3, 2), UniformSample(4, 2),
-          MultiAgent(3, 2, 2), MultiAgent(4, 1, 2), MultiAgent(2, 3, 0, vect=False), MultiAgent(3, 0, 3, A=3)]
+          MultiAgent(3, 2, 2), MultiAgent(4, 1, 2), MultiAgent(2, 3, 0, vect=False), MultiAgent(3, 0, 3, A=3),
+          MultiAgent(3, 1, 2, mixed=True), MultiAgent(2, 2, 0, vect=False, mixed=True)]
     if tier == "thorough":
         cs += [RingStep(N, n) for N in (6, 8, 12) for n in (1, 2, N - 1, N)]
-        cs += [RingBase(6, 4, 5), UniformSample(5, 3), UniformSample(6, 2), MultiAgent(4, 3, 3, A=3, B=3)]
+        cs += [RingBase(6, 4, 5), UniformSample(5, 3), UniformSample(6, 2), MultiAgent(4, 3, 3, A=3, B=3), MultiAgent(4, 1, 3, A=3, B=2, mixed=True)]
     return cs
